@@ -1,19 +1,5 @@
 // SPECIFICATION (definitions only, written from the C15 / C04 / C13 statements).
-pub open spec fn is_digit(c: char) -> bool { '0' <= c && c <= '9' }
-pub open spec fn dval(c: char) -> int { c as int - '0' as int }
-
-// "$N ... N being the longest run of digits after $ that forms a number not exceeding the
-// number of groups": continue the number `n` with the digits starting at index j.
-// Returns (N, index just after the digits used).
-pub open spec fn ref_num(r: Seq<char>, j: int, n: int, maxcap: int) -> (int, int)
-    decreases r.len() - j
-{
-    if 0 <= j < r.len() && is_digit(r[j]) && n * 10 + dval(r[j]) <= maxcap {
-        ref_num(r, j + 1, n * 10 + dval(r[j]), maxcap)
-    } else {
-        (n, j)
-    }
-}
+// (is_digit, dval, ref_num: specs/replace_spec_num.rs)
 
 pub open spec fn opt_prepend(a: Seq<char>, t: Option<Seq<char>>) -> Option<Seq<char>> {
     match t { Some(x) => Some(a + x), None => None }
